@@ -32,6 +32,7 @@ import (
 	"strconv"
 	"strings"
 	"sync"
+	"time"
 	"unicode/utf8"
 
 	"github.com/rogpeppe/go-internal/testscript"
@@ -74,6 +75,7 @@ const (
 type tT struct {
 	verdict map[string]string // script name -> PASS | FAIL | SKIP | PANIC
 	fatal   []string
+	verbose bool // testing -v: run() lists the environment before the first line
 }
 
 func (t *tT) Skip(...any)    { panic(skipRun) }
@@ -85,7 +87,7 @@ func (t *tT) Log(a ...any) {
 	}
 }
 func (t *tT) FailNow()       { panic(failedRun) }
-func (t *tT) Verbose() bool  { return false }
+func (t *tT) Verbose() bool  { return t.verbose }
 func (t *tT) Run(name string, f func(testscript.T)) {
 	v := "PASS"
 	func() {
@@ -134,6 +136,13 @@ type script struct {
 	// 3 inserts HOME=/early right after WORK (the predefined HOME entry stays later in the list),
 	// 4 appends a duplicate HOME=/dup, 5 rewrites in place and moves the entry to the end
 	setupMode int
+	// raw: the script text as it is (long-line scripts: the lines are not items)
+	raw string
+	// bare: Params.Setup does not add the entry without separator ("novalue"): the argument-less
+	// env of the unchanged code indexes kv[:-1] on such an entry and panics
+	bare bool
+	// verbose: run with testing.Verbose() true, i.e. with the environment listing at the start
+	verbose bool
 }
 
 // setupEdit applies the script's Setup mode to the variable list.
@@ -194,6 +203,7 @@ type scriptObs struct {
 	vars    []string
 	cd      string
 	inv     map[int][][]string
+	seq     [][]string // rec: every invocation, in order
 	probes  map[int][]string
 	child   map[int]*childObs
 	verdict string
@@ -234,6 +244,21 @@ var cmds = map[string]func(ts *testscript.TestScript, neg bool, args []string){
 		i := curItem[ts.Name()]
 		o.inv[i] = append(o.inv[i], append([]string{}, args...))
 	},
+	"rec": func(ts *testscript.TestScript, neg bool, args []string) {
+		o := curObs[ts.Name()]
+		o.seq = append(o.seq, append([]string{}, args...))
+	},
+	"bigset": func(ts *testscript.TestScript, neg bool, args []string) {
+		// bigset NAME UNIT-IN-HEX N: ts.Setenv(NAME, UNIT repeated N times) — a long value from a short line
+		if len(args) != 3 {
+			ts.Fatalf("harness: bigset NAME UNITHEX N")
+		}
+		n, err := strconv.Atoi(args[2])
+		if err != nil {
+			ts.Fatalf("harness: bigset count")
+		}
+		ts.Setenv(args[0], strings.Repeat(string(common.UnHex(args[1])), n))
+	},
 	"mark": func(ts *testscript.TestScript, neg bool, args []string) {
 		curItem[ts.Name()] = idx(ts, args)
 	},
@@ -269,6 +294,9 @@ var cmds = map[string]func(ts *testscript.TestScript, neg bool, args []string){
 }
 
 func (sc *script) text() string {
+	if sc.raw != "" {
+		return sc.raw
+	}
 	var sb strings.Builder
 	for i, it := range sc.items {
 		switch it.kind {
@@ -284,7 +312,7 @@ func (sc *script) text() string {
 			fmt.Fprintf(&sb, "exec envdump\ngrab %d\n", i)
 		case 'S':
 			fmt.Fprintf(&sb, "apiset %d\n", i)
-		case 'C', 'L':
+		case 'C', 'L', 'R', 'D':
 			sb.WriteString(it.text + "\n")
 		}
 	}
@@ -313,6 +341,9 @@ func runImpl(work string, scripts []*script, continueOnError bool) []*scriptObs 
 		curScripts[name], curObs[name], curItem[name] = sc, obs[i], -1
 	}
 	t := &tT{verdict: map[string]string{}}
+	for _, sc := range scripts {
+		t.verbose = t.verbose || sc.verbose
+	}
 	p := testscript.Params{
 		Files:           files,
 		Cmds:            cmds,
@@ -320,9 +351,14 @@ func runImpl(work string, scripts []*script, continueOnError bool) []*scriptObs 
 		Setup: func(env *testscript.Env) error {
 			// the helper directory goes in front of PATH through a second PATH entry (the
 			// list then holds a duplicate key from the start); ARGS names the recording command
-			env.Vars = append(env.Vars, "PATH="+helperDir+string(os.PathListSeparator)+os.Getenv("PATH"), "ARGS=args", "novalue")
+			env.Vars = append(env.Vars, "PATH="+helperDir+string(os.PathListSeparator)+os.Getenv("PATH"), "ARGS=args")
 			if sc := curScripts[strings.TrimPrefix(filepath.Base(env.WorkDir), "script-")]; sc != nil {
+				if !sc.bare {
+					env.Vars = append(env.Vars, "novalue")
+				}
 				env.Vars = setupEdit(env.Vars, sc.setupMode)
+			} else {
+				env.Vars = append(env.Vars, "novalue")
 			}
 			if o := curObs[strings.TrimPrefix(filepath.Base(env.WorkDir), "script-")]; o != nil {
 				o.vars = append([]string{}, env.Vars...)
@@ -440,8 +476,10 @@ func runModel1(m *common.Model, scripts []*script, obs []*scriptObs) ([]*modelOb
 				reqs = append(reqs, "child")
 			case 'S':
 				reqs = append(reqs, "setenv "+common.Hex([]byte(it.k))+" "+common.Hex([]byte(it.v)))
-			case 'L':
+			case 'L', 'R':
 				reqs = append(reqs, "line "+common.Hex([]byte(it.text)))
+			case 'D':
+				reqs = append(reqs, "cd "+common.Hex([]byte(filepath.Join(obs[s].cd, it.v))))
 			case 'C':
 				reqs = append(reqs, "cmp "+b01(it.neg)+" "+b01(it.env)+" 61 62 "+common.Hex([]byte(it.text1))+" "+common.Hex([]byte(it.text2)))
 			}
@@ -905,8 +943,10 @@ func scriptLines(sc *script, upto int) []string {
 			break
 		}
 		switch it.kind {
-		case 'H', 'T':
+		case 'H', 'T', 'R':
 			ls = append(ls, string(it.kind)+it.text)
+		case 'D':
+			ls = append(ls, "D"+common.Hex([]byte(it.v))+" "+it.text)
 		case 'S':
 			ls = append(ls, "S"+common.Hex([]byte(it.k))+" "+common.Hex([]byte(it.v)))
 		}
@@ -925,6 +965,15 @@ func fromLines(ls []string, names []string) *script {
 		switch l[0] {
 		case 'H', 'T':
 			sc.items = append(sc.items, item{kind: l[0], text: l[1:]})
+		case 'R':
+			// a line of built-in commands that only read (history scripts: their files and their Setup)
+			sc.items = append(sc.items, item{kind: 'R', text: l[1:]})
+			sc.archive, sc.bare = historyArchive, true
+		case 'D':
+			if i := strings.IndexByte(l, ' '); i > 0 {
+				sc.items = append(sc.items, item{kind: 'D', v: string(common.UnHex(l[1:i])), text: l[i+1:]})
+				sc.archive, sc.bare = historyArchive, true
+			}
 		case 'S':
 			f := strings.Fields(l[1:])
 			if len(f) == 2 {
@@ -2244,6 +2293,11 @@ func main() {
 	if f.Tier == "thorough" {
 		nScripts, nStd = 900, 400000
 	}
+	// development aid: TSPARSE_ONLY=script runs the script-level scenarios alone
+	only := os.Getenv("TSPARSE_ONLY")
+	if only == "script" {
+		nScripts, nStd = 0, 0
+	}
 	const perBatch = 16
 	for b := 0; b < nScripts; b += perBatch {
 		var scs []*script
@@ -2265,9 +2319,16 @@ func main() {
 	if f.Tier == "thorough" {
 		nCmp, nArgs = 40000, 4000
 	}
-	for done := 0; done < nCmp+nArgs; done += 2800 {
+	for done := 0; done < nCmp+nArgs && only == ""; done += 2800 {
 		rn.fileModes(r.Fork(), min(nCmp, 2400), min(nArgs, 400))
 	}
+
+	// 3b. the script level: long lines at every position of multi-line scripts, histories of commands
+	t0 := time.Now()
+	rn.longLines(r.Fork())
+	t1 := time.Now()
+	rn.histories(r.Fork())
+	res.Notes = append(res.Notes, fmt.Sprintf("script level: long lines %.1fs, histories %.1fs", t1.Sub(t0).Seconds(), time.Since(t1).Seconds()))
 
 	// 4. the standard-library models on their own
 	rn.stdlibChecks(r.Fork(), nStd)
@@ -2301,6 +2362,14 @@ func (rn *runner) replay(v common.Violation) {
 			rn.stdlibChecks(common.NewRNG(rn.f.Seed), 2000)
 			rn.expandChecks(common.NewRNG(rn.f.Seed), 2000)
 		}
+		return
+	}
+	switch v.Input["mode"] {
+	case "long-lines":
+		rn.replayLong(v)
+		return
+	case "history":
+		rn.replayHistory(v)
 		return
 	}
 	if arch, ok := v.Input["archive"]; ok {
